@@ -110,6 +110,9 @@ def run_e2e(job):
 FIRST_CMDS = [   # (cwd of the first-ever command, its spelling of x, cwd of the second command, its spelling)
     ("d", "../x", "", "x"), ("d/e", "../../x", "", "./x"), ("", "x", "d", "../x"), ("d", "{P}/x", "", "x"),
     ("d", "../x", "d/e", "../../x"), ("ld", "../x", "", "x"),
+    # "@lk": a working directory entered through a symbolic link that lies OUTSIDE the project and points to p/d, with the
+    # shell's logical $PWD (the path through the link) exported, as every POSIX shell does
+    ("", "x", "@lk", "../x"), ("@lk", "../x", "", "x"), ("@lk", "../x", "@lk", "../x"),
 ]
 
 
@@ -136,8 +139,11 @@ def run_first(job):
         env["REDO_LOG"] = "0"
         env["RV_TRACE"] = trace
         errs = []
+        os.symlink("p/d", top + "/lk")
         for cwd_rel, sp in ((cwd1, s1), (cwd2, s2)):
-            rc, out, err = common.run_cmd(["redo-ifchange", sp.replace("{P}", Pr)], os.path.join(P, cwd_rel) if cwd_rel else P, env, timeout=60)
+            cwd = top + "/lk" if cwd_rel == "@lk" else (os.path.join(P, cwd_rel) if cwd_rel else P)
+            env["PWD"] = cwd          # the logical path, as the shell exports it
+            rc, out, err = common.run_cmd(["redo-ifchange", sp.replace("{P}", Pr)], cwd, env, timeout=60)
             errs.append(err[-300:])
             if rc != 0:
                 res["violations"].append(dict(kind="first-command-failed", rc=rc, stderr=err[-300:]))
